@@ -82,6 +82,10 @@ func (f *formatter) newToken(id token.ID, val []byte) *token.Token {
 }
 
 func (f *formatter) formatList(nodes []ast.Vertex, separator byte) []*token.Token {
+	if len(nodes) == 0 {
+		return nil
+	}
+
 	separatorTkns := make([]*token.Token, len(nodes)-1)
 	for i, v := range nodes {
 		v.Accept(f)
